@@ -76,7 +76,7 @@ impl Check for RouteCheck {
                 "migration_limit": *rng.pick(&[0u64, 1, 1, 2, 3]),
                 "compress_meta": rng.chance(1, 2),
                 "nodes_v1_mask": rng.below(256),
-                "n_keys": rng.range(60, 200),
+                "n_keys": rng.range(150, 500),
                 "scan_count": *rng.pick(&[1u64, 1, 2]),
                 "scan_interval_us": *rng.pick(&[50_000u64, 100_000, 200_000]),
                 "random_slots": if all_slots { 16384 } else { rng.range(16, 48) },
@@ -652,6 +652,9 @@ async fn run_routing(prop: &'static str, plan: &Value, want_sample: bool) -> Run
                         // source and destination each pointing at the other = nobody serves the slot. Both
                         // snapshots are stable over the whole round, so this is not a matter of sampling time.
                         if let Some((srcp, dstp)) = snap.mig.get(s) {
+                            if std::env::var("VERIF_DEBUG").is_ok() && start == srcp && &adv == dstp {
+                                eprintln!("[c14dbg] slot {} src {} says dst {}; dst stable {:?}; dst says {:?}", s, srcp, dstp, stable.get(dstp), snaps.get(dstp).and_then(|d| d.nodes.get(s)));
+                            }
                             if start == srcp && &adv == dstp && stable.get(dstp) == Some(&true) {
                                 if let Some(ds) = snaps.get(dstp) {
                                     if ds.nodes.get(s) == Some(srcp) {
